@@ -191,5 +191,73 @@ def run_async_tls(inp):
     return [outcome, bytes(script.accepted), [], 0]
 
 
+def run_adapter_multi(inp):
+    """impl 12 (path 10): several send_all / send_all_from_iterable calls, one after the other, on the real adapter."""
+    from easynetwork.lowlevel.api_async.backend._asyncio.backend import AsyncIOBackend
+    from easynetwork.lowlevel.api_async.backend._asyncio.stream.socket import (
+        AsyncioTransportStreamSocketAdapter,
+        StreamReaderBufferedProtocol,
+    )
+    import c04
+    import realio
+
+    sends = inp[8]
+    datas = [[realio.chunk_bytes(c if isinstance(c, bytes) else tuple(c)) for c in chunks] for _kind, chunks, _k in sends]
+    total = sum(len(c) for d in datas for c in d)
+    clock = iosim.Clock()
+    script = iosim.SockScript(clock, send=[(0, k, 0) for _kind, _chunks, k in sends], bound=10 * (total + 3 * len(sends)) + 50)
+    sock, peer = iosim.make_pair(iosim.ScriptedSocket, script)
+    sock.setblocking(False)
+    outcome = 0
+    got = bytearray()
+
+    async def main(loop):
+        nonlocal outcome
+        protocol = StreamReaderBufferedProtocol(loop=loop)
+        transport = loop._make_socket_transport(sock, protocol)
+        await asyncio.sleep(0)
+        adapter = AsyncioTransportStreamSocketAdapter(AsyncIOBackend(), transport, protocol)
+        try:
+            for (kind, _chunks, _k), data in zip(sends, datas):
+                if kind == 0:
+                    await adapter.send_all(b"".join(data))
+                else:
+                    await adapter.send_all_from_iterable(iter(c04._typed(data)))
+                got.extend(iosim.drain(peer))
+            for _ in range(20000):
+                if not transport.get_write_buffer_size():
+                    break
+                await asyncio.sleep(0)
+            else:
+                outcome = 9
+        except BaseException as exc:  # noqa: BLE001
+            if isinstance(exc, (KeyboardInterrupt, SystemExit)):
+                raise
+            outcome = iosim.exc_code(exc)
+        finally:
+            transport.abort()
+            await asyncio.sleep(0)
+
+    try:
+        with iosim.alarm(10.0), detloop.running() as loop:
+            try:
+                loop.run_until_complete(main(loop))
+            except iosim.SpinDetected:
+                outcome = 9
+            except detloop.DeadlockError:
+                outcome = 8
+        got.extend(iosim.drain(peer))
+        wire = bytes(got)
+    finally:
+        try:
+            sock.close()
+        except Exception:
+            pass
+        peer.close()
+    return [outcome, wire, 1 if wire == bytes(script.accepted) else 0, 0]
+
+
 def run(inp):
+    if inp[7] == 12:
+        return run_adapter_multi(inp)
     return run_asyncio_adapter(inp) if inp[7] == 3 else run_async_tls(inp)
